@@ -1,6 +1,6 @@
 (* WindowedBinaryAUROC (torcheval/metrics/window/auroc.py): a SAMPLE-granular ring buffer.
      registered states : inputs, targets, weights (num_tasks x L), max_num_samples, total_samples
-     PLAIN ATTRIBUTE   : next_inserted
+     PLAIN ATTRIBUTE   : next_inserted (rewound by the reset() override since c5ceb09; not saved / loaded)
    update(): three insertion cases (batch >= window; fits in the rest; wraps around).
    compute(): "the tail inputs[:, next_inserted:] is all zeros => the window is unfilled, read
    [:next_inserted]" heuristic and .squeeze() of the (num_tasks, k) slices -- modelled as they are.
@@ -34,7 +34,7 @@ Definition aupd (c : acfg) (s : ast) (b : list col) : ast :=
     {| a_buf := lastn N b; a_cur := 0; a_tot := a_tot s + k; a_max := N |}
   else if Nat.ltb N (a_cur s) then
     (* stale cursor beyond the buffer (reachable only through D5: merge-enlarged object, then
-       reset()/load_state_dict()): the first slice assignment is empty; the second one,
+       load_state_dict() of a smaller dict; reset() rewinds the cursor since c5ceb09): the first slice assignment is empty; the second one,
        inputs[:, :k-rest] = input[:, -(k-rest):], BROADCASTS a one-sample batch over
        min(N, 1 + cursor - N) slots and raises (state untouched) for any larger batch *)
     match b with
@@ -122,13 +122,13 @@ Definition col_ok (c : acfg) (cl : col) : bool := Nat.eqb (List.length cl) (aT c
 Definition avalid (c : acfg) (b : list col) : bool :=
   negb (Nat.eqb (List.length b) 0) && forallb (col_ok c) b.
 
-Definition wauroc (fixed : bool) : Metric :=
+Definition wauroc (fixed : variant) : Metric :=
   {| cfg := acfg; st := ast; batch := list col; out := aout;
      init := ainit; valid := avalid; upd := aupd; mrg := amrg; cmp := acmp;
      prep := fun _ s => s;
-     save := fun _ s => if fixed then s else a_with_cur 0 s;
-     load := fun _ tgt d => if fixed then d else a_with_cur (a_cur tgt) d;
-     rst := fun c s => if fixed then ainit c else a_with_cur (a_cur s) (ainit c) |}.
+     save := fun _ s => if cur_saved fixed then s else a_with_cur 0 s;
+     load := fun _ tgt d => if cur_saved fixed then d else a_with_cur (a_cur tgt) d;
+     rst := fun c s => if cur_reset fixed then ainit c else a_with_cur (a_cur s) (ainit c) |}.
 
 (* ---- codec ---- *)
 Definition dec_acfg (v : val) : option acfg :=
@@ -155,12 +155,12 @@ Definition a_enc_st (c : acfg) (s : ast) : val :=
       vnat (a_cur s)].
 Definition a_enc_out (_ : acfg) (o : aout) : val :=
   match o with AErr => verr "compute" | AScalar x => vq x | AVec l => vlistQ l end.
-Definition wauroc_codec (fixed : bool) : Codec (wauroc fixed) :=
+Definition wauroc_codec (fixed : variant) : Codec (wauroc fixed) :=
   Build_Codec (wauroc fixed) dec_acfg dec_ab a_enc_st a_enc_out.
 (* @model wauroc run_wauroc *)
-Definition run_wauroc := run_pool (wauroc false) (wauroc_codec false).
+Definition run_wauroc := run_pool (wauroc V_code) (wauroc_codec V_code).
 (* @model wauroc_fixed run_wauroc_fixed *)
-Definition run_wauroc_fixed := run_pool (wauroc true) (wauroc_codec true).
+Definition run_wauroc_fixed := run_pool (wauroc V_fixed) (wauroc_codec V_fixed).
 
 (* ---- reference: the non-windowed BinaryAUROC on the last N samples ---- *)
 (* what the window should hold *)
